@@ -282,6 +282,7 @@ def check_forwarding(prog, rep):
 
 
 def check_rrblup(prog, rep):
+    """name-independent: roles are found from the keys of the result dictionary ('betahat', 'uhat', 'varE', 'varU') and from resolved callees"""
     m = prog.module(GM + "rrBLUPModel0")
     f = m.functions.get("rrBLUP_ML0")
     if f is None:
@@ -289,56 +290,189 @@ def check_rrblup(prog, rep):
         return
     rep.saw(f)
     body = body_nodoc(f.node)
-    order = {}
-    for i, st in enumerate(body):
-        if isinstance(st, ast.Assign):
-            order.setdefault(dump(st.targets[0]), []).append((i, dump(st.value)))
+    ps = f.params()
+    yp, Zp = ps[0], ps[1]
     good = True
-    mean = [k for k, v in order.items() if any(x[1] in ("y.mean()", "numpy.mean(y)") for x in v)]
-    cen = [x for x in order.get("y", []) if "center_y" in x[1] or x[1] in ("y - y.mean()", "y - meanY")]
-    if not mean or not cen or order[mean[0]][0][0] > cen[0][0]:
-        rep.violate("R7-rrblup", f.qualname, "the intercept is not the mean of the uncentred response (mean taken after centring, or not taken)", where(f), "meanY = y.mean() before y is centred",
-                    "%s / %s" % (mean, cen))
+    assigns = [(i, st) for i, st in enumerate(body) if isinstance(st, ast.Assign) and len(st.targets) == 1]
+
+    def last_def(name, before):
+        c = [(i, st) for i, st in assigns if isinstance(st.targets[0], ast.Name) and st.targets[0].id == name and i < before]
+        return c[-1] if c else (None, None)
+    ret = [(i, st) for i, st in enumerate(body) if isinstance(st, ast.Return)]
+    if not ret:
+        rep.unrec("R7-rrblup", f.qualname, "no return")
+        return
+    ri, rst = ret[-1]
+    rv = rst.value
+    if isinstance(rv, ast.Name):
+        _, d = last_def(rv.id, ri)
+        rv = d.value if d is not None else None
+    if not isinstance(rv, ast.Dict):
+        rep.unrec("R7-rrblup", f.qualname, "result is not a dictionary literal")
+        return
+    out = {k.value: v for k, v in zip(rv.keys, rv.values) if isinstance(k, ast.Constant)}
+    for key in ("betahat", "uhat", "varE", "varU"):
+        if key not in out:
+            rep.unrec("R7-rrblup", f.qualname, "result dictionary has no %r" % key)
+            return
+
+    def value_of(e, before):
+        """follow one name to its defining expression"""
+        if isinstance(e, ast.Name):
+            i, d = last_def(e.id, before)
+            if d is not None:
+                return i, d.value
+        return before, e
+    # centring statement: the response parameter is rebound
+    cen = [(i, st) for i, st in assigns if isinstance(st.targets[0], ast.Name) and st.targets[0].id == yp]
+    cen_i = cen[0][0] if cen else None
+    # intercept
+    bi, bv = value_of(out["betahat"], ri)
+    inner = None
+    if isinstance(bv, ast.Call) and prog.dotted(f.module, bv.func) in ("numpy.array", "numpy.asarray") and bv.args and isinstance(bv.args[0], (ast.List, ast.Tuple)) and len(bv.args[0].elts) == 1:
+        inner = bv.args[0].elts[0]
+    if inner is None:
+        rep.unrec("R7-rrblup", f.qualname, "intercept %s not numpy.array([<mean>])" % dump(bv)[:40])
         good = False
     else:
-        bh = order.get("betahat", [])
-        if not bh or bh[0][1] != "numpy.array([%s])" % mean[0]:
-            rep.violate("R7-rrblup", f.qualname, "betahat is %s, not the training mean" % (bh[0][1] if bh else "?"), where(f), "numpy.array([%s])" % mean[0], bh[0][1] if bh else "absent")
+        mi, mv = value_of(inner, bi)
+        mt = "".join(dump(mv).split())
+        if mt not in ("%s.mean()" % yp, "numpy.mean(%s)" % yp, "%s.mean(0)" % yp, "numpy.mean(%s,0)" % yp):
+            rep.violate("R7-rrblup", f.qualname, "the intercept is %s, not the mean of the training response" % dump(mv)[:50], where(f), "%s.mean()" % yp, dump(mv)[:50])
             good = False
-    want = {"ridge": "rrBLUP_ML0_calc_ridge(varE, varU)", "ZtZplI": "rrBLUP_ML0_calc_ZtZplI(Z, ridge)", "Zty": "rrBLUP_ML0_calc_Zty(Z, y)", "uhat": "gauss_seidel(ZtZplI, Zty, gsatol, gsmaxiter)"}
-    for k, v in want.items():
-        got = order.get(k, [(0, None)])[0][1]
-        if got != v:
-            rep.violate("R7-rrblup", f.qualname, "%s = %s, expected %s" % (k, got, v), where(f), v, str(got))
+        elif cen_i is not None and not (mi is not None and mi < cen_i):
+            rep.violate("R7-rrblup", f.qualname, "the intercept is the mean of the response taken AFTER it was centred (always 0), not the training mean", where(f),
+                        "mean before %s is centred" % yp, "mean after centring")
             good = False
-    helpers = {"rrBLUP_ML0_calc_ridge": "varE / varU", "rrBLUP_ML0_calc_Zty": "Z.T @ y", "rrBLUP_ML0_center_y": "y - y.mean()"}
-    for hn, ref in helpers.items():
-        h = m.functions.get(hn)
-        if h is None:
-            rep.unrec("R7-rrblup", m.name, "%s vanished" % hn)
-            good = False
-            continue
-        rep.saw(h)
+    # marker effects: solver(A, b, ...)
+    ui, uv = value_of(out["uhat"], ri)
+    solver = prog.resolve_name(f.module, uv.func.id) if isinstance(uv, ast.Call) and isinstance(uv.func, ast.Name) else None
+    if getattr(solver, "name", None) != "gauss_seidel" or len(uv.args) < 2:
+        rep.unrec("R7-rrblup", f.qualname, "marker effects are not gauss_seidel(A, b, ...): %s" % dump(uv)[:50])
+        return
+    ai, av = value_of(uv.args[0], ui)
+    bi2, bv2 = value_of(uv.args[1], ui)
+    # A = H1(Z, ridge)
+    H1 = prog.resolve_name(f.module, av.func.id) if isinstance(av, ast.Call) and isinstance(av.func, ast.Name) else None
+    if H1 is None or not hasattr(H1, "node") or len(av.args) != 2:
+        rep.unrec("R7-rrblup", f.qualname, "normal matrix %s is not <helper>(Z, ridge)" % dump(av)[:50])
+        return
+    rep.saw(H1)
+    if dump(av.args[0]) != Zp:
+        rep.violate("R7-rrblup", f.qualname, "the normal matrix is built from %s, not from the marker matrix %s" % (dump(av.args[0]), Zp), where(f, av), Zp, dump(av.args[0]))
+        good = False
+    # H1 body: M = Z.T @ Z ; diagonal view += ridge ; return M    (or M + ridge * eye)
+    hp = H1.params()
+    hb = body_nodoc(H1.node)
+    hret = [s for s in hb if isinstance(s, ast.Return)]
+    okh = False
+    if hret and isinstance(hret[-1].value, ast.Name) and len(hp) == 2:
+        Mn = hret[-1].value.id
+        mdef = [s for s in hb if isinstance(s, ast.Assign) and dump(s.targets[0]) == Mn]
         try:
-            got = VN(prog, h).run(body_nodoc(h.node))
-            r = VN(prog, h).expr(ast.parse(ref, mode="eval").body)
+            gram = VN(prog, H1).expr(mdef[0].value) if mdef else None
+            refg = VN(prog, H1).expr(ast.parse("%s.T @ %s" % (hp[0], hp[0]), mode="eval").body)
+        except VNUnknown:
+            gram = None
+        views = [s for s in hb if isinstance(s, ast.Assign) and isinstance(s.value, ast.Call) and (
+            (prog.dotted(H1.module, s.value.func) == "numpy.einsum" and s.value.args and isinstance(s.value.args[0], ast.Constant) and s.value.args[0].value == "ii->i"
+             and len(s.value.args) == 2 and dump(s.value.args[1]) == Mn))]
+        adds = [s for s in hb if isinstance(s, ast.AugAssign) and isinstance(s.op, ast.Add) and views and dump(s.target) == dump(views[0].targets[0])]
+        if gram is not None and gram == refg and views and len(adds) == 1:
+            if dump(adds[0].value) == hp[1]:
+                okh = True
+            else:
+                rep.violate("R7-rrblup", H1.qualname, "the diagonal of Z'Z is increased by %s, not by the ridge parameter %s" % (dump(adds[0].value), hp[1]), where(H1, adds[0]), hp[1],
+                            dump(adds[0].value))
+                good = False
+                okh = None
+        elif gram is not None and gram != refg and comparable(gram, refg):
+            rep.violate("R7-rrblup", H1.qualname, "the normal matrix normalises to %s, not Z'Z" % gram.show()[:60], where(H1), refg.show(), gram.show()[:60])
+            good = False
+            okh = None
+        elif gram is not None and gram == refg and not adds:
+            rep.violate("R7-rrblup", H1.qualname, "the ridge penalty is not added to the diagonal of Z'Z", where(H1), "diag(Z'Z) += ridge", "no diagonal update")
+            good = False
+            okh = None
+    if okh is False:
+        rep.unrec("R7-rrblup", H1.qualname, "penalised normal matrix not in the modelled form (Gram product, diagonal view, += ridge)")
+        good = False
+    # ridge = H2(varE, varU) = varE / varU with the names returned under 'varE' / 'varU'
+    ri2, rv2 = value_of(av.args[1], ai)
+    H2 = prog.resolve_name(f.module, rv2.func.id) if isinstance(rv2, ast.Call) and isinstance(rv2.func, ast.Name) else None
+    if H2 is not None and hasattr(H2, "node") and len(rv2.args) == 2:
+        rep.saw(H2)
+        try:
+            got = VN(prog, H2).run(body_nodoc(H2.node))
+            p2 = H2.params()
+            r = VN(prog, H2).expr(ast.parse("%s / %s" % (p2[0], p2[1]), mode="eval").body)
             if got != r:
-                if comparable(got, r):
-                    rep.violate("R7-rrblup", h.qualname, "%s normalises to %s, not %s" % (hn, got.show()[:80], ref), where(h), ref, got.show()[:80])
+                if got is not None and not isinstance(got, list) and comparable(got, r):
+                    rep.violate("R7-rrblup", H2.qualname, "the ridge parameter normalises to %s, not error variance / marker variance" % got.show()[:60], where(H2), r.show(), got.show()[:60])
                 else:
-                    rep.unrec("R7-rrblup", h.qualname, "other operators")
+                    rep.unrec("R7-rrblup", H2.qualname, "ridge helper uses other operators")
                 good = False
         except VNUnknown as e:
-            rep.unrec("R7-rrblup", h.qualname, str(e))
+            rep.unrec("R7-rrblup", H2.qualname, str(e))
             good = False
-    h = m.functions.get("rrBLUP_ML0_calc_ZtZplI")
-    if h is not None:
-        rep.saw(h)
-        txt = [dump(s) for s in body_nodoc(h.node)]
-        if txt[:3] != ["ZtZplI = Z.T @ Z", "diagZtZplI = numpy.einsum('ii->i', ZtZplI)", "diagZtZplI += ridge"] or txt[-1] != "return ZtZplI":
-            rep.violate("R7-rrblup", h.qualname, "penalised normal matrix is not Z'Z with `ridge` added on its diagonal view: %s" % txt[:3], where(h), "Z.T @ Z; diag += ridge", str(txt[:3])) \
-                if any("ridge" in t for t in txt) else rep.violate("R7-rrblup", h.qualname, "the ridge penalty is not added to the diagonal of Z'Z", where(h))
+        wantargs = [dump(out["varE"]), dump(out["varU"])]
+        gotargs = [dump(a) for a in rv2.args]
+        if gotargs != wantargs:
+            rep.violate("R7-rrblup", f.qualname, "the ridge parameter is computed from (%s), not from (error variance %s, marker variance %s)" % (", ".join(gotargs), wantargs[0], wantargs[1]),
+                        where(f, rv2), ", ".join(wantargs), ", ".join(gotargs))
             good = False
+    elif isinstance(rv2, ast.BinOp) and isinstance(rv2.op, ast.Div):
+        if [dump(rv2.left), dump(rv2.right)] != [dump(out["varE"]), dump(out["varU"])]:
+            rep.violate("R7-rrblup", f.qualname, "the ridge parameter is %s, not error variance / marker variance" % dump(rv2), where(f), "%s / %s" % (dump(out["varE"]), dump(out["varU"])), dump(rv2))
+            good = False
+    else:
+        rep.unrec("R7-rrblup", f.qualname, "ridge parameter %s" % dump(rv2)[:40])
+        good = False
+    # b = H3(Z, y_centred) = Z.T @ y
+    H3 = prog.resolve_name(f.module, bv2.func.id) if isinstance(bv2, ast.Call) and isinstance(bv2.func, ast.Name) else None
+    if H3 is not None and hasattr(H3, "node") and len(bv2.args) == 2:
+        rep.saw(H3)
+        try:
+            got = VN(prog, H3).run(body_nodoc(H3.node))
+            p3 = H3.params()
+            r = VN(prog, H3).expr(ast.parse("%s.T @ %s" % (p3[0], p3[1]), mode="eval").body)
+            if got != r:
+                if got is not None and not isinstance(got, list) and comparable(got, r):
+                    rep.violate("R7-rrblup", H3.qualname, "the right-hand side normalises to %s, not Z'y" % got.show()[:60], where(H3), r.show(), got.show()[:60])
+                else:
+                    rep.unrec("R7-rrblup", H3.qualname, "right-hand side helper uses other operators")
+                good = False
+        except VNUnknown as e:
+            rep.unrec("R7-rrblup", H3.qualname, str(e))
+            good = False
+        if [dump(a) for a in bv2.args] != [Zp, yp]:
+            rep.violate("R7-rrblup", f.qualname, "the right-hand side is built from (%s), not (%s, %s)" % (", ".join(dump(a) for a in bv2.args), Zp, yp), where(f, bv2))
+            good = False
+        elif cen_i is not None and bi2 is not None and bi2 < cen_i:
+            rep.violate("R7-rrblup", f.qualname, "Z'y uses the uncentred response while the intercept already carries its mean", where(f, bv2))
+            good = False
+    else:
+        rep.unrec("R7-rrblup", f.qualname, "right-hand side %s" % dump(bv2)[:40])
+        good = False
+    # the centring helper
+    if cen:
+        cv = cen[0][1].value
+        H4 = prog.resolve_name(f.module, cv.func.id) if isinstance(cv, ast.Call) and isinstance(cv.func, ast.Name) else None
+        if H4 is not None and hasattr(H4, "node"):
+            rep.saw(H4)
+            try:
+                got = VN(prog, H4).run(body_nodoc(H4.node))
+                p4 = H4.params()
+                r = VN(prog, H4).expr(ast.parse("%s - %s.mean()" % (p4[0], p4[0]), mode="eval").body)
+                if got != r:
+                    if got is not None and not isinstance(got, list) and comparable(got, r):
+                        rep.violate("R7-rrblup", H4.qualname, "centring normalises to %s, not y - mean(y)" % got.show()[:60], where(H4), r.show(), got.show()[:60])
+                    else:
+                        rep.unrec("R7-rrblup", H4.qualname, "centring helper uses other operators")
+                    good = False
+            except VNUnknown as e:
+                rep.unrec("R7-rrblup", H4.qualname, str(e))
+                good = False
     g = m.functions.get("gauss_seidel")
     if g is not None:
         rep.saw(g)
@@ -392,25 +526,68 @@ def check_rrblup(prog, rep):
                     rep.violate("R7-rrblup", g.qualname, "`%s` aliases the current iterate instead of copying it: the measured change is always 0 and the solver stops after one sweep"
                                 % dump(sst), where(g, sst), "%s[:] = %s" % (dump(sst.targets[0]), dump(sst.value)), dump(sst))
                     good = False
-    # fit_numpy: complementary masks
+    # fit_numpy: estimates scattered through a polymorphism mask, the complement set to exactly 0 (roles from the constructor keyword u_a and the solver call)
     K = prog.get_class("rrBLUPModel0", GM + "rrBLUPModel0")
     fn = K.methods.get("fit_numpy")
     if fn is not None:
         rep.saw(fn)
-        txt = [dump(s) for s in walk_no_nested(fn.node) if isinstance(s, ast.Assign)]
-        need = ["ispolymorphic = ~numpy.all(Z == Z[0, :], axis=0)", "Zpoly = Z[:, ispolymorphic]", "u_a[ispolymorphic, :] = uhat", "u_a[~ispolymorphic, :] = 0.0"]
-        miss = [n for n in need if n not in txt]
-        if miss:
-            stores = [t for t in txt if t.startswith("u_a[")]
-            if "u_a[~ispolymorphic, :] = 0.0" in miss and any(t.startswith("u_a = numpy.zeros") for t in txt):
-                pass
-            elif "u_a[~ispolymorphic, :] = 0.0" in miss or "u_a[ispolymorphic, :] = uhat" in miss:
-                rep.violate("R7-rrblup", fn.qualname, "marker effects are written as %s: monomorphic markers must get exactly 0 through the complement of the mask used for the estimates"
-                            % stores, where(fn), "u_a[mask] = uhat; u_a[~mask] = 0.0", str(stores))
+        Zf = fn.params()[3] if len(fn.params()) > 3 else "Z"
+        fa = {}
+        for st in walk_no_nested(fn.node):
+            if isinstance(st, ast.Assign) and len(st.targets) == 1 and isinstance(st.targets[0], ast.Name):
+                fa.setdefault(st.targets[0].id, []).append(st.value)
+        ctor = [c_ for c_ in walk_no_nested(fn.node) if isinstance(c_, ast.Call) and dump(c_.func) == "cls"]
+        ck = kwargs_of(ctor[0])[0] if len(ctor) == 1 else {}
+        U = ck.get("u_a")
+        if not isinstance(U, ast.Name):
+            rep.unrec("R7-rrblup", fn.qualname, "constructor keyword u_a is not a local array")
+            good = False
+        else:
+            U = U.id
+            stores = [st for st in walk_no_nested(fn.node) if isinstance(st, ast.Assign) and isinstance(st.targets[0], ast.Subscript) and dump(st.targets[0].value) == U]
+            alloc = fa.get(U, [None])[0]
+            afn = prog.dotted(fn.module, alloc.func) if isinstance(alloc, ast.Call) else None
+            # mask: the index of the Z columns handed to the solver
+            solved = [c_ for c_ in ast.walk(fn.node) if isinstance(c_, ast.Call) and isinstance(c_.func, ast.Name) and getattr(prog.resolve_name(fn.module, c_.func.id), "name", None) == "rrBLUP_ML0"]
+            mask = None
+            if len(solved) == 1 and len(solved[0].args) >= 2 and isinstance(solved[0].args[1], ast.Name):
+                zs = fa.get(solved[0].args[1].id, [None])[0]
+                if isinstance(zs, ast.Subscript) and dump(zs.value) == Zf and isinstance(zs.slice, ast.Tuple) and len(zs.slice.elts) == 2 and isinstance(zs.slice.elts[1], ast.Name):
+                    mask = zs.slice.elts[1].id
+            if mask is None:
+                rep.unrec("R7-rrblup", fn.qualname, "solver is not given Z[:, <mask>]")
                 good = False
             else:
-                rep.unrec("R7-rrblup", fn.qualname, "statements %s not found" % miss)
-                good = False
+                md = fa.get(mask, [None])[0]
+                mt = "".join(dump(md).split()) if md is not None else ""
+                if mt not in ("~numpy.all(%s==%s[0,:],axis=0)" % (Zf, Zf), "numpy.any(%s!=%s[0,:],axis=0)" % (Zf, Zf), "numpy.logical_not(numpy.all(%s==%s[0,:],axis=0))" % (Zf, Zf)):
+                    if "numpy.all(" in mt and not mt.startswith(("~", "numpy.logical_not")):
+                        rep.violate("R7-rrblup", fn.qualname, "the markers handed to the solver are the MONOMORPHIC ones (%s)" % dump(md)[:60], where(fn), "~numpy.all(Z == Z[0,:], axis=0)", dump(md)[:60])
+                    else:
+                        rep.unrec("R7-rrblup", fn.qualname, "polymorphism mask %s" % mt[:60])
+                    good = False
+                def row_sel(st):
+                    sl = st.targets[0].slice
+                    e0 = sl.elts[0] if isinstance(sl, ast.Tuple) and len(sl.elts) == 2 and isinstance(sl.elts[1], ast.Slice) and sl.elts[1].lower is None and sl.elts[1].upper is None else (
+                        sl if not isinstance(sl, ast.Tuple) else None)
+                    if isinstance(e0, ast.Name) and e0.id == mask:
+                        return "mask"
+                    if isinstance(e0, ast.UnaryOp) and isinstance(e0.op, ast.Invert) and isinstance(e0.operand, ast.Name) and e0.operand.id == mask:
+                        return "complement"
+                    if isinstance(e0, ast.Call) and prog.dotted(fn.module, e0.func) == "numpy.logical_not" and len(e0.args) == 1 and dump(e0.args[0]) == mask:
+                        return "complement"
+                    return None
+                est = [st for st in stores if row_sel(st) == "mask"]
+                zero = [st for st in stores if row_sel(st) == "complement"]
+                zero_ok = (len(zero) == 1 and isinstance(zero[0].value, ast.Constant) and zero[0].value.value == 0) or afn == "numpy.zeros"
+                if len(est) != 1 or not isinstance(est[0].value, ast.Name):
+                    rep.violate("R7-rrblup", fn.qualname, "the estimates are not scattered to the rows of the markers that were fitted (%s[%s, :] = <estimates>); stores: %s"
+                                % (U, mask, [dump(st)[:40] for st in stores]), where(fn), "%s[%s, :] = uhat" % (U, mask), str([dump(st)[:40] for st in stores]))
+                    good = False
+                if not zero_ok:
+                    rep.violate("R7-rrblup", fn.qualname, "monomorphic markers do not get exactly 0: %s is allocated with %s and the complement rows are %s"
+                                % (U, afn, [dump(st)[:40] for st in zero] or "never written"), where(fn), "%s[~%s, :] = 0.0" % (U, mask), str([dump(st)[:40] for st in stores]))
+                    good = False
     if good:
         rep.ok("R7-rrblup", f.qualname, "intercept = uncentred mean; ridge = varE/varU on the diagonal of Z'Z; Z'y; Gauss-Seidel sweep; monomorphic markers -> 0")
 
